@@ -34,6 +34,7 @@ type Harness struct {
 	Opaque        map[string]bool
 	Expect        string // "" | "violation" (self-test harnesses)
 	Bound         string // free-text bound statement from //verif:bound
+	QuoteApprox   bool   // //verif:quote approx
 	Assumes       []string
 	Tier          string // "" (both) | "quick" | "thorough"
 	Sched         bool
@@ -273,6 +274,8 @@ func (e *Engine) applyDirective(h *Harness, d string) error {
 			return err
 		}
 		h.MaxConcretize = n
+	case "quote":
+		h.QuoteApprox = len(fields) > 1 && fields[1] == "approx"
 	case "maporder":
 		h.MapOrder = true
 	case "sched":
